@@ -1,4 +1,4 @@
-from ..filegen import file_case, bundled, small_bundled
+from ..filegen import file_case, bundled, small_bundled, READER_CORNERS
 from ..gen import hexs
 from ..runner import Case, Property
 from .. import core
@@ -48,6 +48,9 @@ class C01(Property):
                 cases.append(Case("enc " + h, prop=False, tags=("enc-" + tag,)))
             elif i % 3 == 1:
                 cases.append(Case("dec9 " + h, prop=False, tags=("dec9-" + tag,)))
+        for d in READER_CORNERS:
+            cases.append(Case("total " + hexs(d), corr=False, tags=("reader-corner",)))
+            cases.append(Case("dec9 " + hexs(d), prop=False, tags=("reader-corner",)))
         for f, d in (small_bundled() if tier == "quick" else bundled()):
             cases.append(Case("total " + hexs(d), corr=False, tags=("bundled",)))
             cases.append(Case("enc " + hexs(d), prop=False, tags=("bundled",)))
